@@ -147,6 +147,33 @@ pub fn generate(tier: Tier, rng: &mut Rng) -> Vec<Case> {
             push(&mut out, &default, format!("[{x} in {m}, {m}.contains({x}), {m}[{x}] != null]"), Some(format!("(ok (list {0} {0} {0}))", b(present))), vec!["map", "cross-numeric-membership"]);
         }
     }
+    // length sweep: every operation on lists, strings, bytes and maps at sizes around the usual
+    // thresholds of small-size fast paths and growth policies (8, 16, 32, 64, 256, 1000)
+    for n in [0usize, 1, 2, 7, 8, 9, 15, 16, 17, 31, 32, 33, 63, 64, 65, 127, 128, 129, 255, 256, 257, 1000] {
+        let items: Vec<i64> = (0..n as i64).collect();
+        let mut spec = CtxSpec::default_ctx();
+        spec.vars.push(("l".into(), Value::List(Arc::new(items.iter().map(|v| Value::Int(*v)).collect()))));
+        spec.vars.push(("s".into(), Value::String(Arc::new("é".repeat(n)))));
+        spec.vars.push(("bs".into(), Value::Bytes(Arc::new(vec![7u8; n]))));
+        let mut hm = HashMap::new();
+        for v in &items {
+            hm.insert(Key::Int(*v), Value::Int(*v * 2));
+        }
+        spec.vars.push(("m".into(), Value::Map(Map { map: Arc::new(hm) })));
+        let last = n as i64 - 1;
+        for src in [
+            "[size(l), size(s), size(bs), size(m)]".to_string(),
+            format!("[l[0], l[{last}], l[{n}], m[0], m[{last}], m[{n}], s[0]]").replace("[-1]", "[0 - 1]"),
+            format!("[{last} in l, {n} in l, {last} in m, {n} in m, l.contains({last}), m.contains({n})]").replace("-1 in", "(0 - 1) in").replace("(-1)", "(0 - 1)"),
+            "[size(l + l), size(l + [1]), size([1] + l), (l + l)[size(l)], size(s + s), size(bs + bs)]".to_string(),
+            "[l.map(x, x + 1).size(), l.filter(x, x % 2 == 0).size(), l.all(x, x >= 0), l.exists(x, x == size(l) - 1), l.exists_one(x, x == 0)]".to_string(),
+            "[m.map(k, k).size(), m.all(k, m[k] == k * 2), m.exists(k, k == size(m) - 1)]".to_string(),
+            "[l == l + [], l + [1] == l, l.map(x, x) == l, max(l + [0 - 1]), min(l + [5])]".to_string(),
+            "[s.contains('éé'), s.startsWith('é'), s.endsWith('éé'), s == s + '', bs.contains(b'\x07\x07')]".to_string(),
+        ] {
+            push(&mut out, &spec, src, None, vec!["list", "length-sweep"]);
+        }
+    }
     // needles that have equality but no ordering (lists, maps, bytes, null): membership is by ==
     for (needle, hay, present) in [("[1]", "[2, [1]]", true), ("{}", "['a', [], {}]", true), ("{'k': 1}", "[1, {'k': 1}, 2]", true), ("b'a'", "[b'a', null, 1.0]", true), ("null", "[1, null]", true), ("[]", "[[1], 'x']", false), ("[1, 2]", "[[2, 1]]", false), ("{'k': 1}", "[{'k': 2}]", false)] {
         push(&mut out, &default, format!("[{needle} in {hay}, {hay}.contains({needle}), {hay}.exists(e, e == {needle})]"), Some(format!("(ok (list {0} {0} {0}))", b(present))), vec!["list", "unordered-needle"]);
